@@ -636,14 +636,25 @@ func (in *Interp) writeTo(fr *frame, w Iface, s Str) Val {
 	return in.invokeMethod(fr, w, "Write", []Val{in.bytesToSlice(s)})
 }
 
+func isStringOperand(a Val) bool {
+	itf, ok := a.(Iface)
+	if !ok || itf.t == nil {
+		return false
+	}
+	b, ok := itf.t.Underlying().(*types.Basic)
+	return ok && b.Info()&types.IsString != 0
+}
+
 func (in *Interp) sprint(fr *frame, args []Val, ln bool) Str {
 	r := Str{}
 	for i, a := range args {
 		if i > 0 && ln {
 			r = strConcat(r, ConcStr(" "))
 		}
-		// Sprint adds spaces between operands when neither is a string; not
-		// needed by the code under analysis (single operands).
+		// Sprint adds a space between operands when neither is a string
+		if i > 0 && !ln && !isStringOperand(args[i-1]) && !isStringOperand(a) {
+			r = strConcat(r, ConcStr(" "))
+		}
 		r = strConcat(r, in.fmtValue(fr, a, 'v'))
 	}
 	if ln {
